@@ -163,8 +163,8 @@ func DropPointAfterRange(xx []XPart) ([]XPart, bool) {
 				if !B.InList || B.Ord || B.Rev != A.Rev {
 					break
 				}
-				if B.Kind == KSite && B.Lo == A.Hi {
-					continue
+				if B.Kind == KSite && (B.Lo == A.Hi || B.Lo == A.Hi+1) {
+					continue // sites next to the point are absorbed first
 				}
 				if B.Kind == KPoint && B.Lo == A.Hi {
 					drop[b] = true
@@ -182,8 +182,8 @@ func DropPointAfterRange(xx []XPart) ([]XPart, bool) {
 				if !B.InList || B.Ord || B.Rev != A.Rev {
 					break
 				}
-				if B.Kind == KSite && B.Lo == A.Hi {
-					continue
+				if B.Kind == KSite && (B.Lo == A.Hi || B.Lo == A.Hi+1) {
+					continue // sites next to the point are absorbed first
 				}
 				if B.Kind == KPoint && B.Lo == A.Hi {
 					drop[b] = true
